@@ -251,3 +251,282 @@ def cases(env, rng, thorough=False, parts=("stacks", "freeze", "circ", "conv")):
                 for c in (2.0, 3, 2 - 1j) if cplx_h else (2.0, 3, -0.5):
                     for nm, f, W in (("c*A", lambda: c * A, c * DA), ("A*c", lambda: A * c, c * DA), ("A/c", lambda: A / c, DA / c)):
                         yield (f"Conv{hs}/{ins}/{mode} {nm} c={c!r} ch={cplx_h}", ("conv", nm, hs, ins, mode, repr(c), cplx_h), check_op(env, f(), W, "Convolve " + nm))
+
+
+# ----------------------------------------------------------------------------- stacks with a Lean model
+# (Model/OpAlg.lean: vstack / dstack; theorems C05_vstack_eq_den, C05_dstack_eq_den, C12_stack_meta, C12_stack_dtypes)
+
+
+def _np_stack_den(kind, es):
+    Ds = [G.np_den(e) for e in es]
+    if kind == "v":
+        if len({D.shape[1] for D in Ds}) != 1:
+            raise ValueError("shape")
+        return np.vstack(Ds)
+    W = np.zeros((sum(D.shape[0] for D in Ds), sum(D.shape[1] for D in Ds)), dtype=np.complex128)
+    r = c = 0
+    for D in Ds:
+        W[r : r + D.shape[0], c : c + D.shape[1]] = D
+        r += D.shape[0]
+        c += D.shape[1]
+    return W
+
+
+def build_stack(env, case):
+    from scico import operator as sop
+
+    ops = [env.build(e) for e in case["es"]]
+    mod = env.linop if case["lin"] else sop
+    if case["kind"] == "v":
+        return mod.VerticalStack(ops, collapse_output=case["cout"])
+    return mod.DiagonalStack(ops, collapse_input=case["cin"], collapse_output=case["cout"])
+
+
+def observe_stack(env, case, xs, ys):
+    try:
+        o = build_stack(env, case)
+    except Exception as ex:  # noqa: BLE001
+        return ("err", common.err_kind(ex), repr(ex)[:200])
+    r = {
+        "in_shape": G.lst(o.input_shape), "out_shape": G.lst(o.output_shape),
+        "in_dtype": np.dtype(o.input_dtype).name, "out_dtype": np.dtype(o.output_dtype).name,
+        "matrix_shape": [int(v) for v in o.matrix_shape],
+    }
+    ev, evdt = [], None
+    for x in xs:
+        try:
+            y = o(env.to_array(x, r["in_shape"], r["in_dtype"]))
+            ev.append(env.flat(y))
+            evdt = np.dtype(y.dtype).name
+            if G.lst(y.shape) != r["out_shape"]:
+                evdt = "shape:" + str(G.lst(y.shape))
+        except Exception as ex:  # noqa: BLE001
+            ev.append(("err", common.err_kind(ex), repr(ex)[:160]))
+            evdt = "err:" + common.err_kind(ex)
+    ad, addt = [], None
+    if case["lin"]:
+        for y in ys:
+            try:
+                z = o.adj(env.to_array(y, r["out_shape"], r["out_dtype"]))
+                ad.append(env.flat(z))
+                addt = np.dtype(z.dtype).name
+                if G.lst(z.shape) != r["in_shape"]:
+                    addt = "shape:" + str(G.lst(z.shape))
+            except Exception as ex:  # noqa: BLE001
+                ad.append(("err", common.err_kind(ex), repr(ex)[:160]))
+                addt = "err:" + common.err_kind(ex)
+    r["eval"], r["eval_dt"], r["adj"], r["adj_dt"] = ev, evdt, ad, addt
+    return ("ok", r, o)
+
+
+def model_stack(om, case, xs, ys):
+    try:
+        r = om.call("stack", kind=case["kind"], lin=case["lin"], es=case["es"], cin=case["cin"], cout=case["cout"],
+                    xs=[G.encs(x) for x in xs], ys=[G.encs(y) for y in ys])
+    except common.ModelErr as ex:
+        return ("err", ex.kind)
+    r["eval"] = [G.decs(v) for v in r["eval"]]
+    r["adj"] = [G.decs(v) for v in r["adj"]]
+    return ("ok", r)
+
+
+def stack_oracle(env):
+    """the property on the implementation alone: declared vs observed shape/dtype/matrix_shape, plain-vs-block output
+    as documented, dense matrix = vstack / block-diag of the operands' construction, adjoint = conjugate transpose;
+    operands of different dtypes must be rejected"""
+
+    def run(c):
+        case = c.get("case", c)
+        try:
+            ops = [env.build(e) for e in case["es"]]
+        except Exception:  # noqa: BLE001
+            return None
+        try:
+            o = build_stack(env, case)
+        except Exception:  # noqa: BLE001
+            return None
+        fails = {}
+        dts = {(np.dtype(p.input_dtype).name, np.dtype(p.output_dtype).name) for p in ops}
+        if len(dts) > 1:
+            fails["accepted_mixed_dtypes"] = sorted(map(list, dts))
+        n, m = int(o.input_size), int(o.output_size)
+        if list(o.matrix_shape) != [G.size(G.lst(o.output_shape)), G.size(G.lst(o.input_shape))]:
+            fails["matrix_shape"] = [list(o.matrix_shape), G.lst(o.output_shape), G.lst(o.input_shape)]
+        outs = [G.lst(p.output_shape) for p in ops]
+        want_plain = bool(case["cout"]) and all(s == outs[0] for s in outs) and not G.is_nested(outs[0])
+        if G.is_nested(G.lst(o.output_shape)) == want_plain:
+            fails["collapse_rule"] = {"operand_output_shapes": outs, "collapse_output": case["cout"], "declared": G.lst(o.output_shape)}
+        indt = np.dtype(o.input_dtype).name
+        lin_ok = all(not G.has_nonlin(e) for e in case["es"])
+        uni = all(G.kind_uniform({"t": "add", "a": e, "b": case["es"][0]}) for e in case["es"])
+        # (a hand-written adj_fn of a test leaf returns result_type(G.dtype, y.dtype): only on dtype-uniform
+        #  operands is that the declared input dtype - hypothesis LeafAdjOk of C12_dtype_sound)
+        dt_uni = all(G.dtype_uniform({"t": "add", "a": e, "b": case["es"][0]}) for e in case["es"])
+        D = None
+        if lin_ok and all(G.kind_uniform(e) or not G.uses_adjoint(e) for e in case["es"]):
+            try:
+                D = _np_stack_den(case["kind"], case["es"])
+            except (ValueError, ZeroDivisionError):
+                fails["accepted_nonconforming"] = True
+        tol = max(G.tol_of(e) for e in case["es"])
+        xs = [np.eye(n, dtype=np.complex128)[j] for j in range(n)] + [vals(np.random.Generator(np.random.PCG64(7)), (n,), G.is_cplx(indt)).astype(np.complex128)]
+        for x in xs:
+            try:
+                y = o(env.to_array(x, G.lst(o.input_shape), indt))
+            except Exception as ex:  # noqa: BLE001
+                fails["evaluation_raised"] = {"x": [str(complex(v)) for v in x], "error": repr(ex)[:200]}
+                break
+            if G.lst(y.shape) != G.lst(o.output_shape):
+                fails["shape"] = {"declared": G.lst(o.output_shape), "returned": G.lst(y.shape)}
+            if np.dtype(y.dtype) != np.dtype(o.output_dtype):
+                fails["dtype"] = {"declared": np.dtype(o.output_dtype).name, "returned": np.dtype(y.dtype).name}
+            if D is not None and list(D.shape) == [m, n] and not G.vec_close(env.flat(y), D @ x, tol, max(4, D.size)):
+                fails["value"] = {"x": [str(complex(v)) for v in x], "returned": [str(complex(v)) for v in env.flat(y)],
+                                  "same_construction_on_matrices": [str(complex(v)) for v in D @ x]}
+                break
+        if D is not None and list(D.shape) != [m, n]:
+            fails["matrix_shape_vs_construction"] = {"declared": [m, n], "construction": list(D.shape)}
+        if D is not None and not fails and case["lin"] and uni:
+            for i in range(m):
+                yv = np.eye(m, dtype=np.complex128)[i]
+                try:
+                    z = o.adj(env.to_array(yv, G.lst(o.output_shape), np.dtype(o.output_dtype).name))
+                except Exception as ex:  # noqa: BLE001
+                    fails["adjoint_raised"] = repr(ex)[:200]
+                    break
+                if G.lst(z.shape) != G.lst(o.input_shape) or (dt_uni and np.dtype(z.dtype) != np.dtype(o.input_dtype)):
+                    fails["adjoint_meta"] = {"declared": [G.lst(o.input_shape), indt], "returned": [G.lst(z.shape), np.dtype(z.dtype).name]}
+                    break
+                if not G.vec_close(env.flat(z), D.conj().T @ yv, tol, max(4, D.size)):
+                    fails["adjoint_value"] = {"y": [str(complex(v)) for v in yv], "adj_returned": [str(complex(v)) for v in env.flat(z)],
+                                              "conjugate_transpose_of_construction": [str(complex(v)) for v in D.conj().T @ yv]}
+                    break
+        return fails or None
+
+    return run
+
+
+def gen_stack_case(rng, thorough=False):
+    """a stack of small random expressions: mostly accepted, with rejected variants (different input shapes,
+    nested output, mixed dtypes, a non-linear operand in a linear stack, twice-nested collapse)"""
+    import opalg_trees as T
+
+    kind = "v" if rng.random() < 0.5 else "d"
+    lin = bool(rng.random() < 0.8)
+    N = int(rng.choice([1, 2, 2, 3, 3, 4] if thorough else [1, 2, 2, 3]))
+    r = rng.random()
+    one = str(rng.choice(G.DTS, p=[0.1, 0.45, 0.1, 0.35]))
+    if r < 0.82:
+        dt_of = lambda: one  # noqa: E731
+    elif r < 0.92:
+        two = str(rng.choice(G.DTS))
+        dt_of = lambda: str(rng.choice([one, two]))  # noqa: E731
+    else:
+        dt_of = lambda: str(rng.choice(G.DTS))  # noqa: E731
+    def pshape():
+        opts = [s for sz in (1, 2, 3, 4, 6) for s in T.SHAPES_BY_SIZE[sz] if not G.is_nested(s)]
+        if rng.random() < 0.6:
+            opts = [s for s in opts if len(s) == 1]
+        return list(opts[int(rng.integers(len(opts)))])
+
+    same_out = rng.random() < 0.55
+    same_in = rng.random() < 0.55
+    out0, in0 = pshape(), (T.shape(rng) if kind == "v" else pshape())
+    es = []
+    for k in range(N):
+        outsh = out0 if same_out else pshape()
+        insh = in0 if (kind == "v" or same_in) else pshape()
+        q = rng.random()
+        if q < 0.04:
+            outsh = [[1], [2]]  # nested output: rejected
+        elif q < 0.08 and kind == "v":
+            insh = pshape()  # (possibly) different input shape: rejected
+        elif q < 0.11 and kind == "d":
+            insh = [[2], [1]]  # nested input of a diagonal stack: twice-nested
+        depth = int(rng.choice([1, 1, 2, 3] if thorough else [1, 1, 2]))
+        es.append(T.tree(rng, depth, insh, outsh, dt_of, p_bad=0.0, allow_nonlin=(not lin) or rng.random() < 0.06))
+    return {"kind": kind, "lin": lin, "es": es, "cin": bool(rng.random() < 0.6), "cout": bool(rng.random() < 0.6)}
+
+
+def stack_skeleton(case):
+    return (case["kind"], case["lin"], case["cin"], case["cout"]) + tuple(G.skeleton(e) for e in case["es"])
+
+
+def compare_stack(impl, mod, case):
+    diffs = []
+    if impl[0] == "err" or mod[0] == "err":
+        if impl[0] != mod[0]:
+            diffs.append(("constructible", list(impl[:2]), list(mod[:2])))
+        elif impl[1] != mod[1]:
+            diffs.append(("error-kind", impl[1], mod[1]))
+        return diffs
+    a, b = impl[1], mod[1]
+    for k in ("in_shape", "out_shape", "in_dtype", "out_dtype", "matrix_shape"):
+        if a[k] != b[k]:
+            diffs.append((k, a[k], b[k]))
+    if diffs:
+        return diffs
+    uni = all(G.kind_uniform({"t": "add", "a": e, "b": case["es"][0]}) for e in case["es"])
+    adj_inside = any(G.uses_adjoint(e) for e in case["es"])
+    tol = max(G.tol_of(e) for e in case["es"])
+    kk = max(4, a["matrix_shape"][0] * a["matrix_shape"][1])
+    if a["eval_dt"] is not None and a["eval_dt"] != b["eval_dt"]:
+        diffs.append(("eval_dt", a["eval_dt"], b["eval_dt"]))
+    if uni or not adj_inside:
+        for i, (u, v) in enumerate(zip(a["eval"], b["eval"])):
+            if isinstance(u, tuple):
+                continue
+            if not G.vec_close(u, v, tol, kk):
+                diffs.append((f"eval[{i}]", [complex(z) for z in u], [complex(z) for z in v]))
+                break
+    if case["lin"] and a["adj_dt"] is not None:
+        if a["adj_dt"] != b["adj_dt"]:
+            diffs.append(("adj_dt", a["adj_dt"], b["adj_dt"]))
+        elif uni:
+            for i, (u, v) in enumerate(zip(a["adj"], b["adj"])):
+                if isinstance(u, tuple):
+                    continue
+                if not G.vec_close(u, v, tol, kk):
+                    diffs.append((f"adj[{i}]", [complex(z) for z in u], [complex(z) for z in v]))
+                    break
+    return diffs
+
+
+def model_tie(ctx, env, om, n, corpus_cases=()):
+    """correspondence of the Lean stack model with real VerticalStack / DiagonalStack objects"""
+    import json
+
+    orc = stack_oracle(env)
+    bad = 0
+    cases = list(corpus_cases) + [gen_stack_case(ctx.rng, ctx.thorough) for _ in range(n)]
+    for case in cases:
+        impl = observe_stack(env, case, [], [])
+        xs = ys = []
+        if impl[0] == "ok":
+            m_, n_ = impl[1]["matrix_shape"]
+            xs = [vals(ctx.rng, (n_,), G.is_cplx(impl[1]["in_dtype"])).astype(np.complex128) for _ in range(2)]
+            ys = [vals(ctx.rng, (m_,), G.is_cplx(impl[1]["out_dtype"])).astype(np.complex128) for _ in range(2)]
+            impl = observe_stack(env, case, xs, ys)
+        mod = model_stack(om, case, xs, ys)
+        diffs = compare_stack(impl, mod, case)
+        ctx.case({"stack": case["kind"], "lin": case["lin"], "n_ops": len(case["es"]), "skeleton": str(stack_skeleton(case))[:200]},
+                 ("stack",) + stack_skeleton(case), sample_every=100)
+        ctx.count("stack:" + ("V" if case["kind"] == "v" else "D") + (":lin" if case["lin"] else ":op") + (":rejected:" + impl[1] if impl[0] == "err" else ":ok"))
+        if impl[0] == "ok":
+            ctx.count("stack:out=" + ("block" if G.is_nested(impl[1]["out_shape"]) else "plain") + ",in=" + ("block" if G.is_nested(impl[1]["in_shape"]) else "plain"))
+            ctx.count(f"stack:N={len(case['es'])}")
+        if diffs:
+            d = diffs[0]
+            ctx.disagree("opalg.stack:" + d[0], {"case": json.loads(json.dumps(case)), "xs": [G.encs(x) for x in xs], "ys": [G.encs(y) for y in ys]},
+                         json.loads(json.dumps(d[1], default=str)), json.loads(json.dumps(d[2], default=str)), oracle=orc)
+            bad += 1
+            if bad >= 5:
+                break
+        elif impl[0] == "ok":
+            r = orc(case)
+            if r:
+                ctx.disagree("opalg.stack:property", {"case": json.loads(json.dumps(case))}, json.loads(json.dumps(r, default=str)),
+                             "declared = observed; matrix = stack of the operands' constructions", oracle=orc)
+                bad += 1
+                if bad >= 5:
+                    break
